@@ -261,3 +261,75 @@ def meta_pair_rules(ck, P, rule="E-COMP-META"):
                 got[e] = "unsupported:" + str(ex)
         ck.check(got == {"U": "", "G": ".gz", "B": ".br"}, rule, "extension-table", "extension(): Uncompressed->'', Gzip->'.gz', Brotli->'.br'",
                  "extension table is %s" % got, ir.loc(ext[0]))
+
+
+def stage_installed(ck, rule, key, b):
+    """a transform operation's build() must install the stage on every successful path: no `Ok(source)` / `return Ok(source)`
+    that hands back the upstream operation itself (the stage's arguments — e.g. removal of unmatched features — would be ignored)"""
+    src = [x for p in b["params"] for x in ir.pat_binds(p) if "OperationTrait" in x["t"] and x["t"].startswith("std::boxed::Box<")]
+    if not src:
+        ck.violation(rule, key + "|source-param", "build() has no Box<dyn OperationTrait> source parameter", ir.loc(b))
+        return
+    al = ir.Aliases(b)
+    sh = {al.canon(x["hid"]) for x in src}
+    bad = []
+    for n in ir.walk_nodes(b["body"]):
+        if n.get("k") == "call" and (n.get("q") or "").endswith("Result::Ok::{Ctor#0}") and n.get("a"):
+            a = ir.strip(n["a"][0])
+            while a is not None and a.get("k") in ("cast", "block") and (a.get("e") or a.get("tail")):
+                a = ir.strip(a.get("e") or a.get("tail"))
+            if a is not None and a.get("k") == "path" and a.get("r") == "local" and al.canon(a["hid"]) in sh:
+                bad.append(ir.loc(n))
+    ck.check(not bad, rule, key + "|stage-installed", "every successful build path returns the new stage (never the upstream operation itself)",
+             "build() returns the upstream operation unchanged at %s: the stage and its arguments are silently dropped on that path" % bad, ir.loc(b))
+
+
+LEVEL_ADAPTERS_OK = ("iter", "iter_mut", "enumerate", "into_iter", "rev")
+
+
+def levels_rule(ck, P, rule, names):
+    """per-level application: a TileBBoxPyramid method that updates the pyramid level by level must visit EVERY level
+    (self.level_bbox.iter_mut()[.enumerate()], no take_while / skip / filter / break) and, where it needs the level number,
+    must use the loop's own index or the visited box's `level` field."""
+    for nm in names:
+        bs = [b for b in P.bodies if b["q"].endswith("TileBBoxPyramid::" + nm)]
+        if not ck.anchor(rule, "TileBBoxPyramid::" + nm, bs, 1):
+            continue
+        b = bs[0]
+        loops = [n for n in ir.walk_nodes(b["body"]) if n.get("k") == "for" and "level_bbox" in ir.place_str(n["iter"])]
+        key = "levels|" + nm
+        if not ck.check(len(loops) == 1, rule, key + "|loop", "%s updates the pyramid in one loop over self.level_bbox" % nm, "%s has %d loops over level_bbox" % (nm, len(loops)), ir.loc(b)):
+            continue
+        lp = loops[0]
+        chain = []
+        x = ir.strip(lp["iter"])
+        while x is not None and x.get("k") == "mcall":
+            chain.append(x["name"])
+            x = ir.strip(x["recv"])
+        root = ir.place_str(x) if x is not None else "?"
+        bad = [c for c in chain if c not in LEVEL_ADAPTERS_OK]
+        ck.check(not bad and root == "self.level_bbox", rule, key + "|all-levels", "%s visits every level (self.level_bbox.%s)" % (nm, ".".join(reversed(chain))),
+                 "%s iterates `%s`: levels are skipped by %s, so the operation is not applied to every zoom level" % (nm, ir.place_str(lp["iter"]), bad or root), ir.loc(lp))
+        esc = []
+        for n, parents, _ in ir.walk(lp["body"]):
+            if n.get("k") in ("break", "continue", "ret") and not any(p.get("k") == "closure" for p in parents):
+                esc.append(n["k"])
+        ck.check(not esc, rule, key + "|no-exit", "no break/continue/return inside the level loop (errors propagate with `?`)", "the level loop contains %s" % esc, ir.loc(lp))
+        binds = ir.pat_binds(lp["pat"])
+        idx = [z for z in binds if z["t"] == "usize"]
+        bb = [z for z in binds if "TileBBox" in z["t"]]
+        # level numbers used inside the loop
+        uses = []
+        for n in ir.walk_nodes(lp["body"]):
+            if n.get("k") in ("call", "mcall") and (n.get("q") or "").endswith(("TileBBox::from_geo", "TileBBoxPyramid::get_level_bbox", "TileBBox::new_empty", "TileBBox::new_full")):
+                a = n["a"][0]
+                uses.append(a)
+        okl = True
+        for a in uses:
+            e = ir.strip(a)
+            while e is not None and e.get("k") == "cast":
+                e = ir.strip(e["e"])
+            from_idx = bool(idx) and ir.local_hid(e) == idx[0]["hid"]
+            from_box = bool(bb) and e is not None and e.get("k") == "field" and e.get("name") == "level" and ir.local_hid(e["e"]) == bb[0]["hid"]
+            okl = okl and (from_idx or from_box)
+        ck.check(okl, rule, key + "|own-level", "level numbers used inside the loop are the loop's own level (%d uses)" % len(uses), "a level number inside the loop is not the visited level", ir.loc(lp))
